@@ -44,6 +44,12 @@ type yangStatement struct {
 	// funcs is the map of YANG field names to the function that populates
 	// the statement into the AST node.
 	funcs map[string]func(*Statement, reflect.Value, reflect.Value, *typeDictionary) error
+	// special is the map of the field names that are not filled in by
+	// substatements (Name, Statement and Parent) to the function that
+	// populates them from the statement itself.  They are kept apart from
+	// funcs so that a substatement spelled like one of them is an unknown
+	// keyword.
+	special map[string]func(*Statement, reflect.Value, reflect.Value, *typeDictionary) error
 	// required is a list of fields that must be present in the statement.
 	required []string
 	// sRequired maps a statement name to a list of required sub-field
@@ -60,6 +66,7 @@ type yangStatement struct {
 func newYangStatement() *yangStatement {
 	return &yangStatement{
 		funcs:     make(map[string]func(*Statement, reflect.Value, reflect.Value, *typeDictionary) error),
+		special:   make(map[string]func(*Statement, reflect.Value, reflect.Value, *typeDictionary) error),
 		sRequired: make(map[string][]string),
 	}
 }
@@ -143,19 +150,19 @@ func build(stmt *Statement, parent reflect.Value, types *typeDictionary) (v refl
 
 	// Handle special cases that are not actually substatements:
 
-	if fn := y.funcs["Name"]; fn != nil {
+	if fn := y.special["Name"]; fn != nil {
 		// Name uses stmt directly.
 		if err := fn(stmt, v, parent, types); err != nil {
 			return nilValue, err
 		}
 	}
-	if fn := y.funcs["Statement"]; fn != nil {
+	if fn := y.special["Statement"]; fn != nil {
 		// Statement uses stmt directly.
 		if err := fn(stmt, v, parent, types); err != nil {
 			return nilValue, err
 		}
 	}
-	if fn := y.funcs["Parent"]; fn != nil {
+	if fn := y.special["Parent"]; fn != nil {
 		// parent is the parent node, which is nilValue (reflect.ValueOf(nil)) if there is none.
 		// parent.IsValid will return false when parent is a nil interface
 		// parent.IsValid will true if parent references a concrete type
@@ -367,19 +374,20 @@ func initTypes(at reflect.Type) {
 			if name != "Parent" {
 				panic(fmt.Sprintf("interface field is %s, not Parent", name))
 			}
-			fn = func(stmt *Statement, v, p reflect.Value, types *typeDictionary) error {
+			y.special[name] = func(stmt *Statement, v, p reflect.Value, types *typeDictionary) error {
 				if !p.Type().Implements(nodeType) {
 					panic(fmt.Sprintf("invalid interface: %v", f.Type.Kind()))
 				}
 				v.Elem().Field(i).Set(p)
 				return nil
 			}
+			continue
 		case reflect.String:
 			// The only case of this should be the "Name" field
 			if name != "Name" {
 				panic(fmt.Sprintf("string field is %s, not Name", name))
 			}
-			fn = func(stmt *Statement, v, _ reflect.Value, types *typeDictionary) error {
+			y.special[name] = func(stmt *Statement, v, _ reflect.Value, types *typeDictionary) error {
 				if v.Type() != at {
 					panic(fmt.Sprintf("got type %v, want %v", v.Type(), at))
 				}
@@ -391,6 +399,7 @@ func initTypes(at reflect.Type) {
 				v.Elem().Field(i).SetString(stmt.Argument)
 				return nil
 			}
+			continue
 
 		case reflect.Ptr:
 			if f.Type == statementType {
@@ -399,14 +408,14 @@ func initTypes(at reflect.Type) {
 				if name != "Statement" {
 					panic(fmt.Sprintf("string field is %s, not Statement", name))
 				}
-				fn = func(stmt *Statement, v, _ reflect.Value, types *typeDictionary) error {
+				y.special[name] = func(stmt *Statement, v, _ reflect.Value, types *typeDictionary) error {
 					if v.Type() != at {
 						panic(fmt.Sprintf("got type %v, want %v", v.Type(), at))
 					}
 					v.Elem().Field(i).Set(reflect.ValueOf(stmt))
 					return nil
 				}
-				break
+				continue
 			}
 
 			// Make sure our field type is also setup.
